@@ -1,0 +1,159 @@
+//! Verification hooks (compiled only with `--cfg ukoehb_bevy_cobweb_verif`).
+//!
+//! Nothing here changes behaviour: the functions only read framework state, record events in a thread-local log,
+//! or call a thread-local yield hook that is unset by default.
+use crate::prelude::*;
+use bevy::prelude::*;
+use std::cell::{Cell, RefCell};
+
+//-------------------------------------------------------------------------------------------------------------------
+
+thread_local! {
+    static YIELD: Cell<Option<fn()>> = const { Cell::new(None) };
+    static RUNNER_LOG: RefCell<Option<Vec<RunnerEv>>> = const { RefCell::new(None) };
+}
+
+/// Sets a function that is called at every yield point on the current thread (`None` = no-op).
+pub fn set_yield_hook(f: Option<fn()>) { YIELD.with(|y| y.set(f)); }
+/// Calls the yield hook of the current thread, if any.
+pub fn yield_point() { if let Some(f) = YIELD.with(|y| y.get()) { f() } }
+
+//-------------------------------------------------------------------------------------------------------------------
+
+/// Events recorded by `syscommand_runner`.
+#[derive(Debug, Clone, Copy, PartialEq, Eq)]
+pub enum RunnerEv
+{
+    /// Runner entered for a command; second field is the tree counter at entry (0 = root).
+    Enter(Entity, usize),
+    /// The command's system was extracted and is about to run.
+    Run(Entity),
+    /// The command was postponed because its system is executing.
+    Postpone(Entity),
+    /// The command was aborted (target missing).
+    Abort(Entity),
+    /// A leftover postponed command was discarded by the root.
+    Discard(Entity),
+    /// The root runner is about to reset the tree counter.
+    RootExit(Entity),
+}
+
+/// Starts (or stops, with `false`) recording runner events on this thread.
+pub fn record_runner(on: bool) { RUNNER_LOG.with(|l| *l.borrow_mut() = if on { Some(Vec::new()) } else { None }); }
+/// Takes the runner events recorded so far on this thread.
+pub fn take_runner_log() -> Vec<RunnerEv>
+{
+    RUNNER_LOG.with(|l| l.borrow_mut().as_mut().map(std::mem::take).unwrap_or_default())
+}
+pub(crate) fn trace(ev: RunnerEv) { RUNNER_LOG.with(|l| if let Some(v) = l.borrow_mut().as_mut() { v.push(ev); }); }
+
+//-------------------------------------------------------------------------------------------------------------------
+
+/// Entry counts of the reactor tables.
+#[derive(Debug, Clone, Default, PartialEq, Eq)]
+pub struct TableCounts
+{
+    pub insertion: usize,
+    pub mutation: usize,
+    pub removal: usize,
+    pub despawn: usize,
+    pub despawn_keys: usize,
+    pub any_entity_event: usize,
+    pub resource: usize,
+    pub broadcast: usize,
+    /// Entity-scoped entries (sum over all `EntityReactors` components).
+    pub entity_scoped: usize,
+    /// System entity of every handle in the type-wide and despawn tables.
+    pub reactors: Vec<Entity>,
+}
+
+/// Internal state that must be clean between reaction trees.
+#[derive(Debug, Clone, Default, PartialEq, Eq)]
+pub struct Snapshot
+{
+    pub counter: usize,
+    pub buffered: usize,
+    /// (prepared entries, currently reacting) for the system-event, entity-reaction, event and despawn trackers.
+    pub trackers: [(usize, bool); 4],
+    /// Live system commands whose callback is not in storage.
+    pub storages_without_callback: usize,
+    /// Entities carrying a `DataEntityCounter` (broadcast / entity-event bookkeeping).
+    pub data_entities: usize,
+    pub tables: TableCounts,
+    /// Handles in type-wide / despawn tables that name a despawned system.
+    pub dead_handles: usize,
+}
+
+impl Snapshot
+{
+    /// True if no residue of a reaction tree is present.
+    pub fn is_quiescent(&self) -> bool
+    {
+        self.counter == 0 && self.buffered == 0 && self.trackers.iter().all(|(n, r)| *n == 0 && !*r)
+            && self.storages_without_callback == 0 && self.data_entities == 0
+    }
+}
+
+/// Takes a snapshot of framework-internal state.
+pub fn snapshot(world: &mut World) -> Snapshot
+{
+    let mut s = Snapshot::default();
+    s.counter = **world.resource::<SyscommandCounter>();
+    s.buffered = world.resource::<CobwebCommandQueue<BufferedSyscommand>>().verif_len();
+    s.trackers = [
+        world.resource::<SystemEventAccessTracker>().verif_state(),
+        world.resource::<EntityReactionAccessTracker>().verif_state(),
+        world.resource::<EventAccessTracker>().verif_state(),
+        world.resource::<DespawnAccessTracker>().verif_state(),
+    ];
+    s.storages_without_callback = world.query::<&SystemCommandStorage>().iter(world).filter(|s| !s.verif_has_callback()).count();
+    s.data_entities = world.query::<&DataEntityCounter>().iter(world).count();
+    s.tables = world.resource::<ReactCache>().verif_counts();
+    s.tables.entity_scoped = world.query::<&EntityReactors>().iter(world).map(|r| r.verif_len()).sum();
+    s.dead_handles = s.tables.reactors.iter().filter(|e| world.get_entity(**e).is_err()).count();
+    s
+}
+
+/// Number of entities holding system-event data of type `T`.
+pub fn count_system_event_data<T: Send + Sync + 'static>(world: &mut World) -> usize
+{
+    world.query::<&SystemEventData<T>>().iter(world).count()
+}
+
+/// True if `entity` carries local data of entity world reactor `T`.
+pub fn has_entity_world_local<T: EntityWorldReactor>(world: &World, entity: Entity) -> bool
+{
+    world.get::<EntityWorldLocal<T>>(entity).is_some()
+}
+
+/// Fault injection: removes the stored callback component from a system command entity.
+pub fn take_storage(world: &mut World, command: SystemCommand) -> bool
+{
+    let Ok(mut e) = world.get_entity_mut(*command) else { return false };
+    e.take::<SystemCommandStorage>().is_some()
+}
+
+//-------------------------------------------------------------------------------------------------------------------
+
+pub mod sync
+{
+    //! `Arc` wrapper with yield points, so a controlled scheduler can interleave clone/drop with other threads.
+    use super::yield_point;
+
+    pub struct Arc<T>(std::sync::Arc<T>);
+
+    impl<T> Arc<T>
+    {
+        pub fn new(t: T) -> Self { Self(std::sync::Arc::new(t)) }
+        pub fn strong_count(this: &Self) -> usize
+        {
+            yield_point();
+            let c = std::sync::Arc::strong_count(&this.0);
+            yield_point();
+            c
+        }
+    }
+    impl<T> Clone for Arc<T> { fn clone(&self) -> Self { yield_point(); Self(self.0.clone()) } }
+    impl<T> Drop for Arc<T> { fn drop(&mut self) { yield_point(); } }
+    impl<T> std::ops::Deref for Arc<T> { type Target = T; fn deref(&self) -> &T { &self.0 } }
+}
